@@ -1,6 +1,7 @@
 package basestreamseeder
 
 import (
+	"sync"
 	"time"
 
 	"github.com/Fantom-foundation/lachesis-base/gossip/basestream"
@@ -58,12 +59,21 @@ var (
 // size limits and symbolic item sizes; an unregistration after request number unregAfter.  The responses
 // must equal those of a reference seeder written from the statement.
 func verifC17(nReq int, unregAfter int, fixed int, symLimits int) {
+	verifC17t(nReq, unregAfter, fixed, symLimits, 1)
+}
+
+// threads == 2: two sender workers.  The reader handles all requests first; the two senders then run in a
+// symbolic order (natively: the first response is written slowly, so that a response queued on the other
+// worker overtakes it).  Responses are then compared per session.
+func verifC17t(nReq int, unregAfter int, fixed int, symLimits int, threads int) {
 	sizes := make([]uint64, vItems)
 	for i := range sizes {
 		sizes[i] = uint64(sym.U8(vnItem[i]))
 	}
 	var sent []vSent
-	cfg := Config{SenderThreads: 1, MaxSenderTasks: 64, MaxPendingResponsesSize: 1 << 40,
+	var mu sync.Mutex
+	slowDone := false
+	cfg := Config{SenderThreads: threads, MaxSenderTasks: 64, MaxPendingResponsesSize: 1 << 40,
 		MaxResponsePayloadNum: 3, MaxResponsePayloadSize: 1 << 30, MaxResponseChunks: 2}
 	s := New(cfg, Callbacks{
 		ForEachItem: func(start basestream.Locator, _ basestream.RequestType, onKey func(basestream.Locator) bool, onAppended func(basestream.Payload) bool) basestream.Payload {
@@ -85,6 +95,17 @@ func verifC17(nReq int, unregAfter int, fixed int, symLimits int) {
 	})
 	peer := Peer{ID: "p", SendChunk: func(r basestream.Response) error {
 		p := r.Payload.(vPayload)
+		if threads > 1 && !sym.Symbolic() {
+			mu.Lock()
+			slow := !slowDone
+			slowDone = true
+			mu.Unlock()
+			if slow {
+				time.Sleep(150 * time.Millisecond) // the first response is written slowly
+			}
+			mu.Lock()
+			defer mu.Unlock()
+		}
 		sent = append(sent, vSent{r.SessionID, r.Done, append([]int{}, p.keys...), p.size})
 		return nil
 	}, Misbehaviour: func(error) { sym.Assert(false, "an honest peer is not reported as misbehaving") }}
@@ -93,8 +114,10 @@ func verifC17(nReq int, unregAfter int, fixed int, symLimits int) {
 	pump := func() {
 		if sym.Symbolic() {
 			sym.RunUntilBlocked(func() { s.readerLoop() })
-			s.senders[0].Start(1)
-			sym.RunGo(sym.NumGo() - 1)
+			if threads == 1 {
+				s.senders[0].Start(1)
+				sym.RunGo(sym.NumGo() - 1)
+			}
 		} else {
 			time.Sleep(60 * time.Millisecond)
 		}
@@ -165,8 +188,49 @@ func verifC17(nReq int, unregAfter int, fixed int, symLimits int) {
 			sym.Reach("unregistered")
 		}
 	}
+	if threads > 1 && sym.Symbolic() {
+		first := sym.Choice("firstSender", 2)
+		s.senders[first].Start(1)
+		sym.RunGo(sym.NumGo() - 1)
+		s.senders[1-first].Start(1)
+		sym.RunGo(sym.NumGo() - 1)
+	}
 	if !sym.Symbolic() {
+		if threads > 1 {
+			time.Sleep(300 * time.Millisecond)
+		}
 		s.Stop()
+	}
+	if threads > 1 {
+		// per session: the same responses in the same order
+		for sid := uint32(1); sid <= 4; sid++ {
+			var a, b []vSent
+			for _, x := range sent {
+				if x.sid == sid {
+					a = append(a, x)
+				}
+			}
+			for _, x := range want {
+				if x.sid == sid {
+					b = append(b, x)
+				}
+			}
+			sym.Assert(len(a) == len(b), "as many responses as the reference seeder sends")
+			for i := range b {
+				if i >= len(a) {
+					break
+				}
+				ok := a[i].done == b[i].done && len(a[i].keys) == len(b[i].keys)
+				if ok {
+					for j := range a[i].keys {
+						ok = ok && a[i].keys[j] == b[i].keys[j]
+					}
+				}
+				sym.Assert(ok, "every response carries the next items of its session in order, without gaps or repeats, and is marked done exactly at the end")
+			}
+		}
+		sym.Reach("c17")
+		return
 	}
 	sym.Assert(len(sent) == len(want), "as many responses as the reference seeder sends")
 	if len(sent) != len(want) {
@@ -194,5 +258,8 @@ func VerifH_C17_unreg4() { verifC17(4, 2, 0, 2) }
 
 // three held sessions 1, 2, 3, then the peer is unregistered, then three more requests with symbolic session IDs:
 // nothing of the forgotten sessions (neither their progress nor their slots in the peer's quota) may survive
-func VerifH_C17_unreg6()     { verifC17(6, 2, 3, 1) }
+func VerifH_C17_unreg6() { verifC17(6, 2, 3, 1) }
+
+// two sender threads, three requests with symbolic session IDs (a resumed session may be interleaved with a new one)
+func VerifH_C17_threads2()   { verifC17t(3, -1, 0, 1, 2) }
 func VerifH_C17_unreg6full() { verifC17(6, 2, 3, 2) }
